@@ -88,6 +88,17 @@ class LogObj(object):
         return {k: v for k, v in self.__dict__.items() if k != "_vpath"}
 
 
+def _tot(c):
+    """Sum over a whole (possibly nested) dict, list or attribute container, in storage order."""
+    if isinstance(c, LogObj):
+        c = c._items()
+    if isinstance(c, dict):
+        return sum([_tot(v) for v in c.values()])
+    if isinstance(c, (list, tuple)):
+        return sum([_tot(v) for v in c])
+    return c
+
+
 class FnBox(object):
     """Deterministic functions reachable through a container ref (f.lin(x, y, k=..))."""
 
@@ -122,4 +133,4 @@ class FnBox(object):
     def tot(self, c):
         """Reads a whole container (dict or list) passed as one argument."""
         self._log("tot")
-        return sum(c.values()) if isinstance(c, dict) else sum(c)
+        return _tot(c)
